@@ -175,10 +175,34 @@ Lemma defers_once_reverse run :
            run_defers run r s'
              match first, o with
              | None, Exc k p => Some (k, p)
-             | None, Done _ => if st_stale s' then Some (KNil, []) else None
              | _, _ => first
              end)).
 Proof. repeat split. Qed.
+
+(* a deferred callback that succeeds does not alter the result: the remaining
+   list is processed from the callback's final state with the same pending
+   exception, exactly as if the entry had only had its side effects *)
+Lemma defer_success_contributes_nothing run f r s first s' vs :
+  run (TCall f [] [] []) s = (s', Done vs) ->
+  run_defers run (DCall f :: r) s first = run_defers run r s' first.
+Proof.
+  intros H. simpl. rewrite H. simpl. destruct first; reflexivity.
+Qed.
+
+(* ... so a frame whose callbacks all succeed ends with the body's own outcome *)
+Lemma defers_all_succeed_keep_outcome run : forall ds s,
+  (forall d, In d ds -> match d with
+                        | DRestore _ _ => True
+                        | DCall f => forall s0, exists s1 vs, run (TCall f [] [] []) s0 = (s1, Done vs)
+                        end) ->
+  exists s', run_defers run ds s None = ret s' [].
+Proof.
+  induction ds as [|[a v|f] r IH]; intros s H; simpl.
+  - exists s; reflexivity.
+  - apply IH. intros d Hd; apply H; right; exact Hd.
+  - destruct (H (DCall f) (or_introl eq_refl) s) as (s1 & vs & E). rewrite E. simpl.
+    apply IH. intros d Hd; apply H; right; exact Hd.
+Qed.
 
 (* registration order: `defer` and `tmp` push on the front of the frame's list *)
 Lemma defer_registers_front run f s :
